@@ -1144,20 +1144,12 @@ where
             return None;
         }
 
-        // Read until we hit a null terminator
-        let mut key = Vec::new();
-        for i in start_pos..label_data.len() {
-            if label_data[i] == 0 {
-                break;
-            }
-            key.push(label_data[i]);
+        // Format written by insert_louds: [len_byte][key_bytes...], state_id = position of len_byte
+        let stored_len = label_data[start_pos] as usize;
+        if start_pos + 1 + stored_len > label_data.len() {
+            return None;
         }
-
-        if key.is_empty() {
-            None
-        } else {
-            Some(key)
-        }
+        Some(label_data.as_slice()[start_pos + 1..start_pos + 1 + stored_len].to_vec())
     }
 }
 
@@ -2552,24 +2544,15 @@ where
             return keys;
         }
 
-        let mut current_key = Vec::new();
-
-        for &byte in label_data.iter() {
-            if byte == 0u8 {
-                // Found separator, this completes a key
-                if !current_key.is_empty() {
-                    keys.push(current_key.clone());
-                    current_key.clear();
-                }
-            } else {
-                // Add byte to current key
-                current_key.push(byte);
+        // Format written by insert_louds: [len_byte][key_bytes...] per key
+        let mut pos = 0;
+        while pos < label_data.len() {
+            let stored_len = label_data[pos] as usize;
+            if pos + 1 + stored_len > label_data.len() {
+                break; // Corrupted data or end of data
             }
-        }
-
-        // Handle last key if there's no trailing separator
-        if !current_key.is_empty() {
-            keys.push(current_key);
+            keys.push(label_data.as_slice()[pos + 1..pos + 1 + stored_len].to_vec());
+            pos += 1 + stored_len;
         }
 
         // Remove duplicates and sort
